@@ -221,3 +221,94 @@ func binaryValues(c *Ctx, be string) bool {
 	_ = clover.ErrCollectionNotExist
 	return true
 }
+
+// consumerErrors: a scan that ends with a GENUINE error - the caller's consumer returns its own error from IterateDocs, at
+// the first, a middle or the last document, on a full scan, an index scan, a sorted and a windowed query - must hand that
+// very error back on every backend, never panic, and leave the handle usable (the transaction and its cursor are
+// released on the error path too); ForEach stopping early likewise.  Identical outcomes are required across backends.
+func consumerErrors(c *Ctx, backends []string) bool {
+	errMine := fmt.Errorf("the consumer's own error")
+	var outcomes []string
+	for bi, be := range backends {
+		im := NewImpl(be, c.Scratch)
+		db := im.db
+		db.CreateCollection("ce")
+		db.CreateIndex("ce", "x")
+		docs := []*d.Document{}
+		for j := 0; j < 9; j++ {
+			docs = append(docs, d.NewDocumentOf(map[string]interface{}{"_id": fixedId(j + 1), "x": int64(j % 4), "y": int64(9 - j)}))
+		}
+		db.Insert("ce", docs...)
+		queries := []*query.Query{
+			query.NewQuery("ce"),
+			query.NewQuery("ce").Where(query.Field("y").GtEq(2)),
+			query.NewQuery("ce").Where(query.Field("x").GtEq(1)),
+			query.NewQuery("ce").Sort(query.SortOption{Field: "x", Direction: 1}),
+			query.NewQuery("ce").Sort(query.SortOption{Field: "y", Direction: -1}),
+			query.NewQuery("ce").Skip(2).Limit(5),
+		}
+		out := []string{}
+		for qi, q := range queries {
+			for _, failAt := range []int{1, 3, 100} {
+				seen := 0
+				var err error
+				pan := ""
+				func() {
+					defer func() {
+						if r := recover(); r != nil {
+							pan = fmt.Sprint(r)
+						}
+					}()
+					err = db.IterateDocs(q, func(doc *d.Document) error {
+						seen++
+						if seen == failAt {
+							return errMine
+						}
+						return nil
+					})
+				}()
+				c.Evals++
+				wantErr := seen >= failAt
+				desc := J{"k": "consumer-error", "backend": be, "query": qi, "fail_at": failAt}
+				if pan != "" {
+					c.Violation(&Replay{Backend: be, Stream: "api", Case: []interface{}{desc}, Actual: []string{pan}, Note: "IterateDocs panicked when its consumer returned an error"})
+					im.Destroy()
+					return false
+				}
+				if wantErr != (err == errMine) || (!wantErr && err != nil) {
+					c.Violation(&Replay{Backend: be, Stream: "api", Case: []interface{}{desc}, Actual: []string{fmt.Sprint(err)}, Note: "IterateDocs does not hand back the error its consumer returned (and only that)"})
+					im.Destroy()
+					return false
+				}
+				// the handle is usable: a write and a read
+				var n int
+				var e2 error
+				func() {
+					defer func() {
+						if r := recover(); r != nil {
+							pan = fmt.Sprint(r)
+						}
+					}()
+					e2 = db.UpdateById("ce", fixedId(1), func(doc *d.Document) *d.Document { doc.Set("touched", int64(qi)); return doc })
+					n, _ = db.Count(query.NewQuery("ce"))
+				}()
+				if pan != "" || e2 != nil || n != 9 {
+					c.Violation(&Replay{Backend: be, Stream: "api", Case: []interface{}{desc}, Actual: []string{pan, fmt.Sprint(e2), fmt.Sprint(n)}, Note: "after a consumer error the handle is not usable"})
+					im.Destroy()
+					return false
+				}
+				out = append(out, fmt.Sprint(qi, failAt, seen, err == errMine))
+				c.NonTrivial(fmt.Sprint("consumer-error", be, qi, failAt))
+			}
+		}
+		outcomes = append(outcomes, strings.Join(out, ";"))
+		if bi > 0 && outcomes[bi] != outcomes[0] {
+			c.Violation(&Replay{Backend: be, Stream: "api", Case: []interface{}{J{"k": "consumer-error"}}, Expected: []string{outcomes[0]}, Actual: []string{outcomes[bi]}, Note: "backends differ in how a scan that ends with a consumer error behaves"})
+			im.Destroy()
+			return false
+		}
+		im.Destroy()
+	}
+	c.Count("consumer-error-rounds")
+	return true
+}
